@@ -1,5 +1,6 @@
 import PrioModel.Field
 import PrioModel.Messages
+import PrioModel.AggParam
 
 /-! Line-protocol driver: one request per line on stdin, one answer per line on stdout. -/
 open Prio
@@ -137,10 +138,47 @@ def handleEncLen (args : List String) : String :=
     | _ => "bad-op"
   | _ => "bad-op"
 
+def parseBits (s : String) : Option (List Bool) :=
+  if s == "e" then some [] else
+  s.toList.mapM fun c => if c == '0' then some false else if c == '1' then some true else none
+
+def parsePrefixes (s : String) : Option (List (List Bool)) :=
+  if s == "none" then some [] else (s.splitOn ",").mapM parseBits
+
+def parseParam (s : String) : Option AggParam := do
+  match AggParam.tryFromPrefixes (← parsePrefixes s) with
+  | .ok a => some a
+  | _ => none
+
+def handleAggCtor (args : List String) : String :=
+  match args with
+  | [ps] =>
+    match parsePrefixes ps with
+    | some l =>
+      match AggParam.tryFromPrefixes l with
+      | .ok a => s!"ok {a.level} {toHex a.encode}"
+      | .err => "err"
+      | .panic => "panic"
+    | none => "bad-op"
+  | _ => "bad-op"
+
+def handleAggValid (args : List String) : String :=
+  match args with
+  | cur :: prev =>
+    match parseParam cur, prev.mapM parseParam with
+    | some c, some p => toString (c.isValid p)
+    | _, _ => "bad-op"
+  | [] => "bad-op"
+
 def handle (line : String) : String :=
   match line.trimAscii.toString.splitOn " " with
   | "fp" :: rest => handleFp rest
   | "dec" :: rest => handleDec rest
+  | "aggctor" :: rest => handleAggCtor rest
+  | "aggvalid" :: rest => handleAggValid rest
+  | ["unitvalid", n] => match n.toNat? with
+    | some k => toString (unitParamIsValid (List.replicate k ()))
+    | none => "bad-op"
   | "enclen" :: rest => handleEncLen rest
   | "fe" :: rest => handleFe rest
   | "fedec" :: rest => handleFeDec (fun P => P.R - 1) rest
